@@ -22,6 +22,7 @@
 #include <cstring>
 
 
+#include <xercesc/dom/DOMException.hpp>
 #include <xercesc/sax/SAXParseException.hpp>
 
 
@@ -690,6 +691,21 @@ XalanTransformer::compileStylesheet(
 
         theResult = -4;
     }
+    catch(const xercesc::DOMException&  e)
+    {
+        // A Xerces DOM that is being built, as source or as result,
+        // reports errors of its own this way.
+        if (theErrorMessage.empty() == false)
+        {
+            TranscodeToLocalCodePage(theErrorMessage, m_errorMessage, true);
+        }
+        else
+        {
+            TranscodeToLocalCodePage(e.getMessage(), m_errorMessage, true);
+        }
+
+        theResult = -4;
+    }
 
     return theResult;
 }
@@ -814,6 +830,14 @@ XalanTransformer::parseSource(
             *m_stylesheetExecutionContext,
             e,
             m_errorMessage);
+
+        theResult = -4;
+    }
+    catch(const xercesc::DOMException&  e)
+    {
+        // A Xerces DOM that is being built reports errors of its
+        // own this way.
+        TranscodeToLocalCodePage(e.getMessage(), m_errorMessage, true);
 
         theResult = -4;
     }
@@ -1496,6 +1520,21 @@ XalanTransformer::doTransform(
                 *m_stylesheetExecutionContext,
                 e,
                 m_errorMessage);
+        }
+
+        theResult = -4;
+    }
+    catch(const xercesc::DOMException&  e)
+    {
+        // A Xerces DOM that is being built, as source or as result,
+        // reports errors of its own this way.
+        if (theErrorMessage.empty() == false)
+        {
+            TranscodeToLocalCodePage(theErrorMessage, m_errorMessage, true);
+        }
+        else
+        {
+            TranscodeToLocalCodePage(e.getMessage(), m_errorMessage, true);
         }
 
         theResult = -4;
